@@ -35,10 +35,20 @@ TARGETS = [
     ("parentrm", "", "", "parentrm b a"),
 ]
 QUICK_ALWAYS = ["roa", "rollactivate", "cainit"]
+# file-system cuts (the RRDP and rsync writers of the publication server): target ops whose own
+# execution or whose tasks write the repository
+FS_TARGETS = [
+    ("fsreposync", "", "roa a +4:v4:4.0/24 -1:v4:1.0/24\n", "reposync a"),
+    ("fsroa", "", "", "roa b +3:v4:3.0/24"),
+    ("fscadelete", "", "", "cadelete b"),
+    ("fsrepublish", "", "", "republish force"),
+    ("fsrollactivate", "", "rollinit b\npump\n", "rollactivate b"),
+]
 
 RULE = ("stream fault: for each (state, operation) scenario every cut point n = 0..#mutations-1 of the operation "
         "plus the tasks it triggers is enumerated on a forked copy of the DISK data directory: the n-th key-value "
-        "mutation and all later ones fail (crash) or only the n-th fails (once); then restart on the same directory, "
+        "mutation (domain kv) or file-system mutation of the repository writers (domain fs) and all later ones fail (crash) "
+        "or only the n-th fails (once, kv); then restart on the same directory, "
         "load every entity, pump tasks, re-submit the request unless it was acknowledged, compare API views + repository "
         "with the fault-free twin; distinct_nontrivial = distinct (op kind, mode, phase of the cut) classes judged")
 
@@ -135,8 +145,10 @@ def check(ctx):
             names = set(QUICK_ALWAYS) | set(rnd.sample([t[0] for t in TARGETS if t[0] not in QUICK_ALWAYS], 2))
             plan = [(t, "crash", "kv", "all" if t[0] in ("roa", "cainit") else "sample8") for t in TARGETS if t[0] in names]
             plan += [(t, "once", "kv", "sample2") for t in TARGETS if t[0] in names]
+            plan += [(FS_TARGETS[0], "crash", "fs", "all"), (rnd.choice(FS_TARGETS[1:]), "crash", "fs", "sample4")]
         else:
             plan = [(t, m, "kv", "all") for t in TARGETS for m in ("crash", "once")]
+            plan += [(t, "crash", "fs", "all") for t in FS_TARGETS]
         texts = [scenario(*p) for p in plan]
         corpus = sorted((vlib.VERIF / "corpus" / "fault").glob("*.ops"))
         texts = [c.read_text() for c in corpus] + texts
@@ -149,7 +161,9 @@ def check(ctx):
     ctx.assumptions += [
         "every single key-value mutation is atomic (temp file + rename on disk; map insert in memory): torn writes are not modelled",
         "cuts are enumerated on the disk back-end (forked data directory); the memory back-end shares the mutation hooks",
-        "file-system cuts of the RRDP/rsync writers are covered by C11",
+        "file-system cuts (the RRDP/rsync writers) are crashes only: every later file-system mutation fails; the tree on disk is "
+        "checked at the cut (notification names existing snapshot/deltas with the stated hashes) and after recovery; the full "
+        "RRDP contract per cut (delta chains, retention) is C11's",
         "the generic fault model is instantiated per command from the observed mutation sequence (object-set write, task writes, command record)",
     ]
     return vlib.finish(ctx, "proof", RULE)
@@ -180,9 +194,12 @@ MANIFEST = {
             "re-submission converges under listener idempotence; the negation of full three-store atomicity is proved with a witness "
             "(known finding F-C08-1). Tied to the code by enumerating EVERY cut of every scenario operation on the real daemon code "
             "(fault hooks in both storage back-ends), checking the observed mutation order against the model's and evaluating the "
-            "theorem predicates (loads, atomic, acked-not-lost, converged vs fault-free twin) on the implementation",
+            "theorem predicates (loads, atomic, acked-not-lost, converged vs fault-free twin) on the implementation; file-system cuts of the "
+            "repository writers: theorem fs_every_cut_valid (any sequence following commit-what-is-written / remove-what-is-not-named keeps "
+            "the notification's snapshot present at every cut), the observed order is checked against that discipline and the files on "
+            "disk are checked at every cut",
     "note": "Proof is about the generic mutation-order model; exhaustive cut enumeration per generated operation validates the model "
-            "against the code and searches for failing cuts (it is not the proof). Torn single writes, fsync/durability of the OS, and "
-            "FS-level cuts of the repository writers (C11) are outside; scenarios are a fixed catalogue of operation kinds and states.",
+            "against the code and searches for failing cuts (it is not the proof). Torn single writes and fsync/durability of the OS are outside; "
+            "file-system cuts are crash-only; scenarios are a fixed catalogue of operation kinds and states.",
     "technique": "Lean 4 proof (generic crash model, all cuts) + exhaustive fault-injection correspondence",
 }
